@@ -43,7 +43,7 @@ def specExpand (ifs : List Iface) (a : UDPAddr) : Option (List UDPAddr) :=
 def specListeners (v6 : Bool) (ifs : List Iface) (sec : SectionView) : Option (List UDPAddr) :=
   let strs : Option (List String) := match sec.iface, sec.listen with
     | some _, some _ => none
-    | some i, none => some ["%" ++ i]
+    | some _, none => some sec.alias
     | none, some l => some l
     | none, none => some []
   match sec.iface, sec.listen with
